@@ -106,7 +106,13 @@ func Normalise(opt LoadOptions, testIdents map[string]bool, loadFn func(map[stri
 	changed := false
 	var prev map[string][]byte
 	counter := 0
-	for round := 0; round <= maxInlineRounds; round++ {
+	// a pass whose edits do not type-check is switched off for the rest of the
+	// run and its round taken back; the other passes carry on
+	disabled := map[string]bool{}
+	lastPass := ""
+	renamePrivatiseOff = false
+	rounds := maxInlineRounds
+	for round := 0; round <= rounds; round++ {
 		pkgs := loadFn(overlay)
 		if pkgs == nil {
 			return nil, append(log, "load failed; not normalised")
@@ -118,136 +124,78 @@ func Normalise(opt LoadOptions, testIdents map[string]bool, loadFn func(map[stri
 			}
 		})
 		if typeErr != "" {
-			if prev == nil {
+			if prev == nil || lastPass == "" {
 				return nil, log // the tree itself does not type-check; Load reports it
 			}
 			// the last round of edits produced an ill-typed program: take it back
-			log = append(log, "inlining round undone (result did not type-check: "+typeErr+")")
 			overlay = prev
+			if lastPass == "rename" && !renamePrivatiseOff {
+				renamePrivatiseOff = true // once more, without private copies of shared types
+				log = append(log, "round of pass rename undone (result did not type-check: "+typeErr+"); retried without private copies of shared types")
+			} else {
+				disabled[lastPass] = true
+				log = append(log, "round of pass "+lastPass+" undone (result did not type-check: "+typeErr+"); pass switched off")
+			}
+			lastPass = ""
+			if rounds < maxInlineRounds+3 {
+				rounds++
+			}
+			continue
+		}
+		if round == rounds {
 			break
 		}
-		if round == maxInlineRounds {
-			break
+		type pass struct {
+			name string
+			run  func() (map[string][]byte, []string)
 		}
-		// names that were renamed are renamed back first, so that renamed anchors
-		// are neither inlined as if they were new helpers nor missed by the rules
-		if redits, rmsgs := renameRound(pkgs, overlay); len(redits) > 0 {
-			log = append(log, rmsgs...)
-			prev = map[string][]byte{}
-			for k, v := range overlay {
-				prev[k] = v
-			}
-			for path, content := range redits {
-				overlay[path] = content
-			}
-			changed = true
-			continue
-		}
-		if redits, rmsgs := reshapeRound(pkgs, overlay); len(redits) > 0 {
-			log = append(log, rmsgs...)
-			prev = map[string][]byte{}
-			for k, v := range overlay {
-				prev[k] = v
-			}
-			for path, content := range redits {
-				overlay[path] = content
-			}
-			changed = true
-			continue
-		}
-		if xedits, xmsgs := exprHelperRound(pkgs, overlay, testIdents); len(xedits) > 0 {
-			log = append(log, xmsgs...)
-			prev = map[string][]byte{}
-			for k, v := range overlay {
-				prev[k] = v
-			}
-			for path, content := range xedits {
-				overlay[path] = content
-			}
-			changed = true
-			continue
-		}
-		cedits, cmsgs := closureRound(pkgs, overlay)
-		if len(cedits) == 0 {
-			log = append(log, cmsgs...) // why something was left alone
-		}
-		if len(cedits) > 0 {
-			log = append(log, cmsgs...)
-			prev = map[string][]byte{}
-			for k, v := range overlay {
-				prev[k] = v
-			}
-			for path, content := range cedits {
-				overlay[path] = content
-			}
-			changed = true
-			continue
-		}
-		if cedits, cmsgs := liftClosureRound(pkgs, overlay); len(cedits) > 0 {
-			log = append(log, cmsgs...)
-			prev = map[string][]byte{}
-			for k, v := range overlay {
-				prev[k] = v
-			}
-			for path, content := range cedits {
-				overlay[path] = content
-			}
-			changed = true
-			continue
-		}
-		if fedits, fmsgs := funcVarRound(pkgs, overlay); len(fedits) > 0 {
-			log = append(log, fmsgs...)
-			prev = map[string][]byte{}
-			for k, v := range overlay {
-				prev[k] = v
-			}
-			for path, content := range fedits {
-				overlay[path] = content
-			}
-			changed = true
-			continue
-		}
-		if sedits, smsgs := splitCondRound(pkgs, overlay, &counter); len(sedits) > 0 {
-			log = append(log, smsgs...)
-			prev = map[string][]byte{}
-			for k, v := range overlay {
-				prev[k] = v
-			}
-			for path, content := range sedits {
-				overlay[path] = content
-			}
-			changed = true
-			continue
-		}
-		edits, msgs, bad := inlineRound(pkgs, overlay, testIdents, &counter)
-		log = append(log, msgs...)
-		if bad {
-			break
-		}
-		if len(edits) == 0 {
+		stop := false
+		passes := []pass{
+			// names that were renamed are renamed back first, so that renamed anchors
+			// are neither inlined as if they were new helpers nor missed by the rules
+			{"rename", func() (map[string][]byte, []string) { return renameRound(pkgs, overlay) }},
+			{"reshape", func() (map[string][]byte, []string) { return reshapeRound(pkgs, overlay) }},
+			{"unembed", func() (map[string][]byte, []string) { return unembedRound(pkgs, overlay) }},
+			{"exprhelper", func() (map[string][]byte, []string) { return exprHelperRound(pkgs, overlay, testIdents) }},
+			{"closure", func() (map[string][]byte, []string) { return closureRound(pkgs, overlay) }},
+			{"closurelift", func() (map[string][]byte, []string) { return liftClosureRound(pkgs, overlay) }},
+			{"funcvar", func() (map[string][]byte, []string) { return funcVarRound(pkgs, overlay) }},
+			{"splitcond", func() (map[string][]byte, []string) { return splitCondRound(pkgs, overlay, &counter) }},
+			{"inline", func() (map[string][]byte, []string) {
+				e, m, bad := inlineRound(pkgs, overlay, testIdents, &counter)
+				if bad {
+					stop = true
+					return nil, m
+				}
+				return e, m
+			}},
 			// nothing left to inline: unbox results of new struct types, then
 			// replace locals of new struct types by their fields
-			edits, msgs = unrollRound(pkgs, overlay)
-			log = append(log, msgs...)
-			if len(edits) == 0 {
-				edits, msgs = unboxRound(pkgs, overlay, &counter)
-				log = append(log, msgs...)
+			{"unroll", func() (map[string][]byte, []string) { return unrollRound(pkgs, overlay) }},
+			{"unbox", func() (map[string][]byte, []string) { return unboxRound(pkgs, overlay, &counter) }},
+			{"unboxparams", func() (map[string][]byte, []string) { return unboxParamsRound(pkgs, overlay) }},
+			{"sra", func() (map[string][]byte, []string) { return sraRound(pkgs, overlay) }},
+			{"ptrsra", func() (map[string][]byte, []string) { return ptrSraRound(pkgs, overlay) }},
+		}
+		var edits map[string][]byte
+		for _, ps := range passes {
+			if disabled[ps.name] {
+				continue
 			}
-			if len(edits) == 0 {
-				edits, msgs = unboxParamsRound(pkgs, overlay)
-				log = append(log, msgs...)
+			e, msgs := ps.run()
+			if len(e) > 0 || ps.name == "closure" || ps.name == "inline" || ps.name == "unroll" || ps.name == "unbox" || ps.name == "unboxparams" || ps.name == "sra" || ps.name == "ptrsra" || ps.name == "unembed" {
+				log = append(log, msgs...) // these passes also say why something was left alone
 			}
-			if len(edits) == 0 {
-				edits, msgs = sraRound(pkgs, overlay)
-				log = append(log, msgs...)
-			}
-			if len(edits) == 0 {
-				edits, msgs = ptrSraRound(pkgs, overlay)
-				log = append(log, msgs...)
-			}
-			if len(edits) == 0 {
+			if stop {
 				break
 			}
+			if len(e) > 0 {
+				edits, lastPass = e, ps.name
+				break
+			}
+		}
+		if stop || len(edits) == 0 {
+			break
 		}
 		prev = map[string][]byte{}
 		for k, v := range overlay {
